@@ -1545,7 +1545,13 @@ class Gen:
                 self.obligations[name]["lines"].append(len(self.out_lines) + 1)
                 origin = dict(kind="contract", name=name, line=i + 1)
             if "external_body" in ln or "assume_specification" in ln or re.search(r"\b(assume|admit)\s*\(", ln):
-                self.stubs.append(dict(line=i + 1, text=s))
+                desc = s
+                if re.fullmatch(r"\s*#\[verifier::external_body\]\s*", ln):
+                    # attribute on its own line: name what it is attached to
+                    nxt = [x.strip() for x in lines[i + 1:i + 6] if x.strip() and not x.strip().startswith("//")]
+                    if nxt:
+                        desc = "#[verifier::external_body] " + nxt[0]
+                self.stubs.append(dict(line=i + 1, text=desc))
             self.emit(ln, origin)
             i += 1
         return "\n".join(self.out_lines) + "\n"
